@@ -21,84 +21,86 @@ the dynamic runs only (partial clause).
 namespace Ska.C05
 open Ska.Effects
 
-/-- What is known on entry about the objects `self` created in earlier calls: the declared closed
-attributes point into a field-closed set `D₀` of cells owned by `self`, the declared safe attributes
-point to cells owned by `self`. -/
-structure EntryInv (S : Summary) (C : Ctx) (h : Heap) (D₀ : Nat → Prop) : Prop where
-  next_eq : h.next = C.n₀
-  ps_eq : C.ps = S.params
-  d_owned : ∀ c, D₀ c → C.O c
-  d_closed : ∀ c, D₀ c → ∀ k r, h.cell c k = .ref r → D₀ r
-  closed_attrs : ∀ a, S.closedAttrs.contains a = true → ∀ r, h.cell C.self a = .ref r → D₀ r
-  safe_attrs : ∀ a, S.safeAttrs.contains a = true → ∀ r, h.cell C.self a = .ref r → C.O r
-
-/-- What holds on exit: the same facts, for the cells the call may have allocated as well. -/
-structure ExitInv (S : Summary) (C : Ctx) (h' : Heap) (D' : Nat → Prop) : Prop where
-  d_safe : ∀ c, D' c → C.Safe c ∧ c < h'.next
-  d_closed : ∀ c, D' c → ∀ k r, h'.cell c k = .ref r → D' r
-  closed_attrs : ∀ a, S.closedAttrs.contains a = true → ∀ r, h'.cell C.self a = .ref r → D' r
-  safe_attrs : ∀ a, S.safeAttrs.contains a = true → ∀ r, h'.cell C.self a = .ref r → C.Safe r
+/-- Ownership facts about the objects `self` created in earlier calls (they hold trivially for a
+newly constructed object with `D = ∅`): the declared closed attributes point into a field-closed set
+`D` of cells the call may mutate, the declared safe attributes point to cells the call may mutate. -/
+structure OwnInv (S : Summary) (C : Ctx) (h : Heap) (D : Nat → Prop) : Prop where
+  next_ge : C.n₀ ≤ h.next
+  d_safe : ∀ c, D c → C.Safe c ∧ c < h.next
+  d_closed : ∀ c, D c → ∀ k r, h.cell c k = .ref r → D r
+  closed_attrs : ∀ a, S.closedAttrs.contains a = true → ∀ r, h.cell C.self a = .ref r → D r
+  safe_attrs : ∀ a, S.safeAttrs.contains a = true → ∀ r, h.cell C.self a = .ref r → C.Safe r ∧ r < h.next
 
 /-- **Frame theorem for one call.**  If the summary of a method satisfies the decidable predicate
 `FrameOK`, then running it — on any heap, with any arguments, any oracle and any inner strategies
-that respect their contract — changes, among the cells that existed before the call, at most: cells
-privately owned by `self` (`O`), fields inner calls are entitled to write (`W`), and non-parameter
-attributes of `self`.  On exit the ownership facts hold again (so the theorem can be iterated). -/
-theorem frameOK_run (S : Summary) (hok : FrameOK S = true) (C : Ctx) (hC : C.WF)
-    (inner : Nat → Heap → Heap) (hin : InnerOK C inner) (ω : Ora) (s : St) (D₀ : Nat → Prop)
-    (hent : EntryInv S C s.h D₀) :
+that respect their contract — changes, among the cells below `C.n₀` (those that existed when the
+caller last looked), at most: cells privately owned by `self` (`O`), fields inner calls are entitled
+to write (`W`), and non-parameter attributes of `self`.  On exit — normal or by an exception — the ownership facts hold again. -/
+theorem frameOK_run (S : Summary) (hok : FrameOK S = true) (C : Ctx) (hC : C.WF) (hps : C.ps = S.params)
+    (inner : Nat → Heap → Heap) (hin : InnerOK C inner) (ω : Ora) (s : St) (hlive : s.dead = false)
+    (D₀ : Nat → Prop) (hent : OwnInv S C s.h D₀) :
     FrameRel C s.h (run C.self inner ω S.body s).h ∧
-      ∃ D', ExitInv S C (run C.self inner ω S.body s).h D' := by
+      ∃ D', OwnInv S C (run C.self inner ω S.body s).h D' := by
   unfold FrameOK at hok
-  have hps := hent.ps_eq
-  cases hchk : check S.params S.body (Abs.init S) with
-  | mk ok A' =>
+  have hsim : Sim C (Abs.init S) D₀ s := by
+    refine ⟨fun x => ?_, fun a => ?_, hent.d_safe, hent.d_closed, hent.next_ge⟩
+    · simp only [clsPath, Abs.init, Nat.zero_testBit]; exact okVal_none _ _ _ _
+    · simp only [clsPath, Abs.init, testBit_maskOf, Nat.zero_testBit, Nat.testBit_or]
+      refine ⟨fun hsc r hv => ?_, fun hcl r hv => hent.closed_attrs a hcl r hv, fun hf => (by cases hf)⟩
+      simp only [Bool.or_eq_true] at hsc
+      rcases hsc with hsc | hsc
+      · exact hent.safe_attrs a hsc r hv
+      · exact hent.d_safe r (hent.closed_attrs a hsc r hv)
+  -- ownership facts from an abstract state that satisfies the exit condition
+  have hexit : ∀ (A' : Abs) (D' : Nat → Prop) (s' : St), Sim C A' D' s' → exitOK S A' = true →
+      OwnInv S C s'.h D' := by
+    intro A' D' s' hs' hex
+    unfold exitOK at hex
+    simp only [Bool.and_eq_true] at hex
+    refine ⟨hs'.nxt, hs'.dsafe, hs'.dclosed, fun a ha r hv => ?_, fun a ha r hv => ?_⟩
+    · have hbit : A'.ac.testBit a = true :=
+        (List.all_eq_true.mp hex.1) a (List.contains_iff_mem.mp ha)
+      exact (hs'.attr a).2.1 (by simpa [clsPath] using hbit) r hv
+    · have hbit : (A'.am.testBit a || A'.ac.testBit a) = true :=
+        (List.all_eq_true.mp hex.2) a (List.contains_iff_mem.mp ha)
+      simp only [Bool.or_eq_true] at hbit
+      rcases hbit with hb | hb
+      · exact (hs'.attr a).1 (by simpa [clsPath] using hb) r hv
+      · exact hs'.dsafe r ((hs'.attr a).2.1 (by simpa [clsPath] using hb) r hv)
+  cases hchk : check S S.body (Abs.init S) with
+  | mk ok r =>
     rw [hchk] at hok
-    simp only [Bool.and_eq_true] at hok
-    have hsim : Sim C (Abs.init S) D₀ s := by
-      refine ⟨fun x => ?_, fun a => ?_, fun c hc => ?_, hent.d_closed, ?_⟩
-      · simp only [clsPath, Abs.init, Nat.zero_testBit, Bool.or_false]; exact okVal_false _ _ _
-      · simp only [clsPath, Abs.init, testBit_maskOf]
-        refine ⟨fun hsc r hv => ?_, fun hcl r hv => hent.closed_attrs a hcl r hv⟩
-        simp only [Bool.or_eq_true] at hsc
-        rcases hsc with hsc | hsc
-        · exact Or.inr (hent.safe_attrs a hsc r hv)
-        · exact Or.inr (hent.d_owned _ (hent.closed_attrs a hsc r hv))
-      · have ho := hent.d_owned c hc
-        exact ⟨Or.inr ho, by rw [hent.next_eq]; exact hC.O_lt c ho⟩
-      · rw [hent.next_eq]; exact Nat.le_refl _
-    have hok1 : (check C.ps S.body (Abs.init S)).1 = true := by rw [hps, hchk]; exact hok.1
-    obtain ⟨D', hs', hfr⟩ := prog_sound hC inner hin ω S.body hsim hok1
-    rw [hps, hchk] at hs'
-    refine ⟨hfr, D', hs'.dsafe, hs'.dclosed, fun a ha r hv => ?_, fun a ha r hv => ?_⟩
-    · have hbit : A'.ac.testBit a = true := by
-        have := hok.2
-        unfold exitOK at this
-        simp only [Bool.and_eq_true] at this
-        exact (List.all_eq_true.mp this.1) a (List.contains_iff_mem.mp ha)
-      exact (hs'.attr a).2 (by simpa [clsPath] using hbit) r hv
-    · have hbit : (A'.as.testBit a || A'.ac.testBit a) = true := by
-        have := hok.2
-        unfold exitOK at this
-        simp only [Bool.and_eq_true] at this
-        exact (List.all_eq_true.mp this.2) a (List.contains_iff_mem.mp ha)
-      exact (hs'.attr a).1 (by simpa [clsPath] using hbit) r hv
+    have hok1 : (check S S.body (Abs.init S)).1 = true := by
+      rw [hchk]
+      cases r with
+      | none => exact hok
+      | some A' => simp only [Bool.and_eq_true] at hok; exact hok.1
+    obtain ⟨D', hpost, hfr⟩ := prog_sound hC S hps.symm inner hin ω S.body hsim hlive hok1
+    refine ⟨hfr, D', ?_⟩
+    unfold Post at hpost
+    cases hd : (run C.self inner ω S.body s).dead with
+    | true =>
+      simp only [hd, if_true] at hpost
+      obtain ⟨A', hs', hex⟩ := hpost
+      exact hexit A' D' _ hs' hex
+    | false =>
+      simp only [hd, Bool.false_eq_true, if_false] at hpost
+      obtain ⟨A', hr, hs'⟩ := hpost
+      rw [hchk] at hr
+      simp only at hr
+      subst hr
+      simp only [Bool.and_eq_true] at hok
+      exact hexit A' D' _ hs' hok.2
 
-/-- **C05, main clause.**  A query whose summary is `FrameOK` leaves `get_params()` of the strategy
-unchanged, leaves every object that existed before the call and is neither owned by the strategy nor
-an inner strategy object completely unchanged (the caller's classifier / regressor / ensemble /
-discriminator, every argument object, every object referenced by a parameter), and leaves the
-parameters of inner strategy objects unchanged. -/
-theorem frameOK_preserves_params (S : Summary) (hok : FrameOK S = true) (C : Ctx) (hC : C.WF)
-    (inner : Nat → Heap → Heap) (hin : InnerOK C inner) (ω : Ora) (s : St) (D₀ : Nat → Prop)
-    (hent : EntryInv S C s.h D₀) :
-    getParams (run C.self inner ω S.body s).h C.self S.params = getParams s.h C.self S.params ∧
-    (∀ r, r < C.n₀ → r ≠ C.self → ¬ C.O r → (∀ k, ¬ C.W r k) →
-        (run C.self inner ω S.body s).h.cell r = s.h.cell r) ∧
-    (∀ r k, r < C.n₀ → ¬ C.O r → ¬ C.W r k → r ≠ C.self →
-        (run C.self inner ω S.body s).h.cell r k = s.h.cell r k) := by
-  obtain ⟨hfr, _⟩ := frameOK_run S hok C hC inner hin ω s D₀ hent
-  refine ⟨?_, fun r hlt hne hO hW => ?_, fun r k hlt hO hW hne => ?_⟩
+/-- What `FrameRel` means for the caller: `get_params()` of the object is unchanged; every cell
+below `n₀` that is neither the object itself, nor owned by it, nor an inner strategy object is
+completely unchanged (the caller's classifier / regressor / ensemble / discriminator, every argument
+object, every object referenced by a parameter); parameters of inner strategy objects are unchanged. -/
+theorem frameRel_caller_view {C : Ctx} (hC : C.WF) {h h' : Heap} (hfr : FrameRel C h h') :
+    getParams h' C.self C.ps = getParams h C.self C.ps ∧
+    (∀ r, r < C.n₀ → r ≠ C.self → ¬ C.O r → (∀ k, ¬ C.W r k) → h'.cell r = h.cell r) ∧
+    (∀ r k, r < C.n₀ → r ≠ C.self → ¬ C.O r → ¬ C.W r k → h'.cell r k = h.cell r k) := by
+  refine ⟨?_, fun r hlt hne hO hW => ?_, fun r k hlt hne hO hW => ?_⟩
   · unfold getParams
     apply List.map_congr_left
     intro k hk
@@ -107,11 +109,10 @@ theorem frameOK_preserves_params (S : Summary) (hok : FrameOK S = true) (C : Ctx
     rcases ht with ht | ht | ht
     · exact hC.O_self ht
     · have := hC.W_self k ht
-      rw [hent.ps_eq] at this
       rw [List.contains_iff_mem.mpr hk] at this
       cases this
     · have := ht.2
-      rw [hent.ps_eq, List.contains_iff_mem.mpr hk] at this
+      rw [List.contains_iff_mem.mpr hk] at this
       cases this
   · funext k
     apply hfr.2 r k hlt
@@ -127,6 +128,23 @@ theorem frameOK_preserves_params (S : Summary) (hok : FrameOK S = true) (C : Ctx
     · exact hW ht
     · exact hne ht.1
 
+/-- **C05, main clause.**  A query whose summary is `FrameOK` leaves `get_params()` of the strategy
+unchanged (hence `clone`, which only reads `get_params`, and pickling of the parameter values behave
+as before), leaves every caller object untouched and leaves the parameters of inner strategies
+unchanged — for all heaps, arguments, oracles. -/
+theorem frameOK_preserves_params (S : Summary) (hok : FrameOK S = true) (C : Ctx) (hC : C.WF)
+    (hps : C.ps = S.params) (inner : Nat → Heap → Heap) (hin : InnerOK C inner) (ω : Ora) (s : St)
+    (hlive : s.dead = false) (D₀ : Nat → Prop) (hent : OwnInv S C s.h D₀) :
+    getParams (run C.self inner ω S.body s).h C.self S.params = getParams s.h C.self S.params ∧
+    (∀ r, r < C.n₀ → r ≠ C.self → ¬ C.O r → (∀ k, ¬ C.W r k) →
+        (run C.self inner ω S.body s).h.cell r = s.h.cell r) ∧
+    (∀ r k, r < C.n₀ → r ≠ C.self → ¬ C.O r → ¬ C.W r k →
+        (run C.self inner ω S.body s).h.cell r k = s.h.cell r k) := by
+  obtain ⟨hfr, _⟩ := frameOK_run S hok C hC hps inner hin ω s hlive D₀ hent
+  have := frameRel_caller_view hC hfr
+  rw [hps] at this
+  exact this
+
 /-! ## Any number of consecutive calls -/
 
 /-- One public call of the object: which method (its body), with which arguments and oracle. -/
@@ -137,83 +155,131 @@ structure Call where
 
 def runCalls (self : Nat) (inner : Nat → Heap → Heap) : List Call → Heap → Heap
   | [], h => h
-  | c :: cs, h => runCalls self inner cs (run self inner c.ω c.body ⟨h, c.env, 0⟩).h
-
-/-- the context of the next call: everything allocated by the previous call is now owned by `self` -/
-def nextCtx (C : Ctx) (h' : Heap) : Ctx :=
-  { C with n₀ := h'.next, O := fun r => C.O r ∨ (C.n₀ ≤ r ∧ r < h'.next) }
-
-theorem innerOK_mono {C C' : Ctx} (hW : C'.W = C.W) (hn : C.n₀ ≤ C'.n₀) {inner : Nat → Heap → Heap}
-    (h : InnerOK C inner) : InnerOK C' inner := by
-  intro r hp hle
-  have := h r hp (Nat.le_trans hn hle)
-  rw [hW]
-  exact this
+  | c :: cs, h => runCalls self inner cs (run self inner c.ω c.body ⟨h, c.env, 0, false⟩).h
 
 /-- **Closed under sequencing** (any number of consecutive queries / any sequence of public calls
 whose summaries are all `FrameOK` with the same parameter and ownership declarations): the frame
 relation w.r.t. the heap before the first call holds after the last one. -/
-theorem frameOK_sequence (ps cl sf : List Nat) (inner : Nat → Heap → Heap) (calls : List Call)
+theorem frameOK_sequence (ps cl sf : List Nat) (inner : Nat → Heap → Heap) (C : Ctx) (hC : C.WF)
+    (hps : C.ps = ps) (hin : InnerOK C inner) (calls : List Call)
     (hok : ∀ c ∈ calls, FrameOK ⟨ps, cl, sf, c.body⟩ = true) :
-    ∀ (C : Ctx) (h : Heap) (D₀ : Nat → Prop), C.WF → InnerOK C inner →
-      EntryInv ⟨ps, cl, sf, Prog.skip⟩ C h D₀ →
+    ∀ (h : Heap) (D₀ : Nat → Prop), OwnInv ⟨ps, cl, sf, Prog.skip⟩ C h D₀ →
       FrameRel C h (runCalls C.self inner calls h) := by
   induction calls with
-  | nil => intro C h _ _ _ _; exact FrameRel.refl _ _
+  | nil => intro h _ _; exact FrameRel.refl _ _
   | cons c cs ih =>
-    intro C h D₀ hC hin hent
-    have hent' : EntryInv ⟨ps, cl, sf, c.body⟩ C (St.mk h c.env 0).h D₀ :=
-      ⟨hent.next_eq, hent.ps_eq, hent.d_owned, hent.d_closed, hent.closed_attrs, hent.safe_attrs⟩
-    obtain ⟨hfr, D', hex⟩ := frameOK_run ⟨ps, cl, sf, c.body⟩ (hok c (List.mem_cons_self ..)) C hC inner hin
-      c.ω ⟨h, c.env, 0⟩ D₀ hent'
+    intro h D₀ hent
+    have hent' : OwnInv ⟨ps, cl, sf, c.body⟩ C (St.mk h c.env 0 false).h D₀ :=
+      ⟨hent.next_ge, hent.d_safe, hent.d_closed, hent.closed_attrs, hent.safe_attrs⟩
+    obtain ⟨hfr, D', hex⟩ := frameOK_run ⟨ps, cl, sf, c.body⟩ (hok c (List.mem_cons_self ..)) C hC hps
+      inner hin c.ω ⟨h, c.env, 0, false⟩ rfl D₀ hent'
     simp only [runCalls]
-    generalize hh' : (run C.self inner c.ω c.body ⟨h, c.env, 0⟩).h = h' at hfr hex
-    have hle : C.n₀ ≤ h'.next := by rw [← hent.next_eq]; exact hfr.1
-    have hC' : (nextCtx C h').WF := by
-      refine ⟨Nat.lt_of_lt_of_le hC.self_lt hle, fun r hr => ?_, fun hr => ?_, fun c k hw => ?_,
-        fun c k hw ho => ?_, hC.W_self⟩
-      · rcases hr with hr | hr
-        · exact Nat.lt_of_lt_of_le (hC.O_lt r hr) hle
-        · exact hr.2
-      · rcases hr with hr | hr
-        · exact hC.O_self hr
-        · have := hC.self_lt; have := hr.1; omega
-      · exact Nat.lt_of_lt_of_le (hC.W_lt c k hw) hle
-      · rcases ho with ho | ho
-        · exact hC.W_O c k hw ho
-        · have := hC.W_lt c k hw; have := ho.1; omega
-    have hsafe' : ∀ r, C.Safe r → r < h'.next → (nextCtx C h').O r := by
-      intro r hr hlt
-      rcases hr with hr | hr
-      · exact Or.inr ⟨hr, hlt⟩
-      · exact Or.inl hr
-    have hent'' : EntryInv ⟨ps, cl, sf, Prog.skip⟩ (nextCtx C h') h' D' := by
-      refine ⟨rfl, hent.ps_eq, fun c hc => ?_, hex.d_closed, hex.closed_attrs, fun a ha r hv => ?_⟩
-      · exact hsafe' c (hex.d_safe c hc).1 (hex.d_safe c hc).2
-      · have hs := hex.safe_attrs a ha r hv
-        rcases hs with hs | hs
-        · -- a reference to a cell allocated by the call: it exists in h'
-          by_cases hlt : r < h'.next
-          · exact Or.inr ⟨hs, hlt⟩
-          · -- dangling references cannot be produced; treat as owned-by-convention is impossible, so
-            -- we use that such a cell does not exist yet and is never protected
-            exact Or.inr ⟨hs, by
-              -- r ≥ h'.next contradicts nothing semantically; we avoid the case by strengthening below
-              exact absurd rfl (fun (_ : r = r) => hlt (by
-                have := hex.safe_attrs a ha r hv
-                exact False.elim (by exact?)))⟩
-        · exact Or.inl hs
-    have hin' : InnerOK (nextCtx C h') inner := innerOK_mono rfl hle hin
-    have hrest := ih (fun c' hc' => hok c' (List.mem_cons_of_mem _ hc')) (nextCtx C h') h' D' hC' hin' hent''
-    refine hfr.trans ⟨hrest.1, fun r k hlt ht => ?_⟩
-    apply hrest.2 r k (Nat.lt_of_lt_of_le hlt hle)
-    intro ht'
-    apply ht
-    rcases ht' with ht' | ht' | ht'
-    · rcases ht' with ht' | ht'
-      · exact Or.inl ht'
-      · omega
-    · exact Or.inr (Or.inl ht')
-    · exact Or.inr (Or.inr ht')
+    have hex' : OwnInv ⟨ps, cl, sf, Prog.skip⟩ C (run C.self inner c.ω c.body ⟨h, c.env, 0, false⟩).h D' :=
+      ⟨hex.next_ge, hex.d_safe, hex.d_closed, hex.closed_attrs, hex.safe_attrs⟩
+    exact hfr.trans (ih (fun c' hc' => hok c' (List.mem_cons_of_mem _ hc')) _ D' hex')
+
+/-! ## Closed under `callQuery` of an inner strategy that is itself `FrameOK` (wrappers) -/
+
+/-- The heap transformer "call method `S'` on the strategy object at `r`" (objects that are not
+strategy objects have no such method: nothing happens). -/
+def asInner (isStrat : Nat → Bool) (S' : Summary) (inner' : Nat → Heap → Heap) (ω : Ora)
+    (env : Nat → Val) : Nat → Heap → Heap :=
+  fun r h => if isStrat r then (run r inner' ω S'.body ⟨h, env, 0, false⟩).h else h
+
+/-- If the inner strategy's own summary is `FrameOK` (stateless: no owned attributes), the inner
+strategy objects are old objects not owned by the outer one, and the outer context entitles inner
+calls to write exactly non-parameter attributes of inner strategy objects, then calling it respects
+the contract `InnerOK` that `frameOK_run` assumes — whatever *its* inner calls do, as long as they
+respect the same contract.  Iterating this covers wrappers of wrappers to any depth. -/
+theorem frameOK_closed_under_callQuery (S' : Summary) (hok' : FrameOK S' = true)
+    (hcl : S'.closedAttrs = []) (hsf : S'.safeAttrs = []) (C : Ctx) (isStrat : Nat → Bool)
+    (hlt : ∀ r, isStrat r = true → r < C.n₀)
+    (hgrant : ∀ r k, isStrat r = true → S'.params.contains k = false → C.W r k)
+    (hdeny : ∀ r k, isStrat r = true → C.W r k → S'.params.contains k = false)
+    (hWlt : ∀ c k, C.W c k → c < C.n₀)
+    (inner' : Nat → Heap → Heap) (hin' : InnerOK C inner') (ω : Ora) (env : Nat → Val) :
+    InnerOK C (asInner isStrat S' inner' ω env) := by
+  intro r h hle
+  unfold asInner
+  cases hs : isStrat r with
+  | false => exact ⟨Nat.le_refl _, fun _ _ _ _ => rfl⟩
+  | true =>
+    simp only [if_true]
+    let C' : Ctx := { n₀ := h.next, self := r, ps := S'.params, O := fun _ => False, W := C.W }
+    have hC' : C'.WF :=
+      ⟨Nat.lt_of_lt_of_le (hlt r hs) hle, fun hf => hf,
+       fun c k hw => Nat.lt_of_lt_of_le (hWlt c k hw) hle, fun _ _ _ hf => hf,
+       fun k hw => hdeny r k hs hw⟩
+    have hinC' : InnerOK C' inner' := by
+      intro r' hp hle'
+      exact hin' r' hp (Nat.le_trans hle hle')
+    have hent : OwnInv S' C' (St.mk h env 0 false).h (fun _ => False) :=
+      ⟨Nat.le_refl _, fun _ hf => hf.elim, fun _ hf => hf.elim,
+       fun a ha => (by rw [hcl] at ha; cases ha), fun a ha => (by rw [hsf] at ha; cases ha)⟩
+    obtain ⟨hfr, _⟩ := frameOK_run S' hok' C' hC' rfl inner' hinC' ω ⟨h, env, 0, false⟩ rfl _ hent
+    refine ⟨hfr.1, fun c k hc hw => hfr.2 c k hc ?_⟩
+    intro ht
+    rcases ht with ht | ht | ht
+    · exact ht
+    · exact hw ht
+    · exact hw (ht.1 ▸ hgrant r k hs ht.2)
+
+/-! ## Non-trivial instances, and what a violation looks like -/
+
+/-- `clf = clone(clf).fit(X, y); self.fitted_ = {}`  (locals: 0 = clf, 1 = tmp; attributes: 0 =
+parameter `method`, 1 = fitted attribute). -/
+def sampleGood : Summary :=
+  { params := [0], closedAttrs := [], safeAttrs := [],
+    body := .seq (.bind 1 (.deep (.loc 0))) (.seq (.callFit (.loc 1)) (.seq (.bind 0 (.alias (.loc 1)))
+      (.seq (.writeAttr 1 (.fresh [])) .skip))) }
+
+/-- `if self.method is None: self.method = "x"` -/
+def sampleParamWrite : Summary :=
+  { params := [0], closedAttrs := [], safeAttrs := [],
+    body := .ite (.seq (.writeAttr 0 (.fresh [])) .skip) .skip .skip }
+
+/-- `clf.fit(X, y)` on the caller's classifier. -/
+def sampleFitArg : Summary :=
+  { params := [0], closedAttrs := [], safeAttrs := [], body := .seq (.callFit (.loc 0)) .skip }
+
+/-- `d = self.metric_dict; d["gamma"] = g` (alias of a parameter, mutated). -/
+def sampleAliasMutation : Summary :=
+  { params := [0], closedAttrs := [], safeAttrs := [],
+    body := .seq (.bind 0 (.alias (.attr 0))) (.seq (.mutate (.loc 0) []) .skip) }
+
+/-- same with a copy: fine -/
+def sampleCopyMutation : Summary :=
+  { params := [0], closedAttrs := [], safeAttrs := [],
+    body := .seq (.bind 0 (.copy (.attr 0))) (.seq (.mutate (.loc 0) []) .skip) }
+
+example : FrameOK sampleGood = true := by decide
+example : FrameOK sampleCopyMutation = true := by decide
+example : FrameOK sampleParamWrite = false := by decide
+example : FrameOK sampleFitArg = false := by decide
+example : FrameOK sampleAliasMutation = false := by decide
+
+/-- the hypotheses of `frameOK_preserves_params` are satisfiable: a two-cell heap (cell 0 = the
+strategy, cell 1 = the caller's classifier), no owned cells, no inner strategies -/
+example : ∃ (C : Ctx) (s : St), C.WF ∧ C.ps = sampleGood.params ∧ InnerOK C (fun _ h => h) ∧
+    OwnInv sampleGood C s.h (fun _ => False) ∧ s.env 0 = .ref 1 :=
+  ⟨{ n₀ := 2, self := 0, ps := [0], O := fun _ => False, W := fun _ _ => False },
+   ⟨⟨fun _ _ => .atom 7, 2⟩, fun _ => .ref 1, 0, false⟩,
+   ⟨by decide, fun h => h, fun _ _ h => h.elim, fun _ _ h => h.elim, fun _ h => h.elim⟩, rfl,
+   fun _ _ _ => ⟨Nat.le_refl _, fun _ _ _ _ => rfl⟩,
+   ⟨Nat.le_refl _, fun _ h => h.elim, fun _ h => h.elim, fun _ h => (by cases h), fun _ h => (by cases h)⟩,
+   rfl⟩
+
+def ω₁ : Ora := { coin := fun _ => true, pick := fun _ _ => .atom 1 }
+def s₀ : St := ⟨⟨fun _ _ => .atom 7, 2⟩, fun _ => .ref 1, 0, false⟩
+
+/-- A summary that is not `FrameOK` really can change `get_params` in the semantics: the lazily
+resolved default of `sampleParamWrite` (the pattern of the six strategies of DESIGN §5). -/
+theorem paramWrite_counterexample :
+    getParams (run 0 (fun _ h => h) ω₁ sampleParamWrite.body s₀).h 0 sampleParamWrite.params
+      ≠ getParams s₀.h 0 sampleParamWrite.params := by decide
+
+/-- … and fitting the caller's classifier changes the caller's object. -/
+theorem fitArg_counterexample :
+    (run 0 (fun _ h => h) ω₁ sampleFitArg.body s₀).h.cell 1 0 ≠ s₀.h.cell 1 0 := by decide
 
 end Ska.C05
